@@ -189,13 +189,13 @@ func init() {
 	reg(&PropDef{
 		ID:    "C13",
 		Title: "Dispute settlement pays out exactly what was paid in, once",
-		Funcs: fcNP("x/dispute/keeper.Keeper.ExecuteVote", "x/dispute/keeper.Keeper.ReturnSlashedTokens", "x/dispute/keeper.Keeper.RefundDisputeFee", "x/dispute/keeper.msgServer.WithdrawFeeRefund"),
+		Funcs: fcNP("x/dispute/keeper.Keeper.ExecuteVote", "x/dispute/keeper.Keeper.ReturnSlashedTokens", "x/dispute/keeper.Keeper.RefundDisputeFee", "x/dispute/keeper.msgServer.WithdrawFeeRefund", "x/dispute/keeper.Keeper.ClaimReward"),
 		Assumptions: []string{
 			"trusted frames for the reporter keeper's ReturnSlashedTokens, FeeRefund, AddAmountToStake (they write reporter/staking state and the two staking pool accounts only); their effect on the stake ledger is C05 and not claimed",
 			"stored dispute records are well formed (FeeTotal > 0, SlashAmount >= BurnAmount >= 0, vote result is a defined enum value), Dust is below one loya, the payer is not the dispute module account",
 		},
 		NotDecided: []string{
-			"that all pay-outs together equal fees paid plus escrowed stake over a whole dispute (needs the sum over all payers and voters); voter reward claims (ClaimReward / CalculateReward); repeated payments by the same payer and payers of later rounds (suspected defects, no check yet)",
+			"that all pay-outs together equal fees paid plus escrowed stake over a whole dispute (needs the sum over all payers and voters); the amount of a voter reward (CalculateReward is a trusted read; its non-negativity is not assumed); repeated payments by the same payer and payers of later rounds (suspected defects, no check yet)",
 			"RewardReporterBondToFeePayers' pro-rata amount",
 		},
 	})
@@ -269,6 +269,53 @@ func init() {
 			"per-backer records of a second fee payment for the same dispute (the earlier records are appended: needs a sum-over-concatenation lemma)",
 			"EscrowReporterStake / undelegate / deductFromdelegation (apportioning over backers, redelegation chase), ReturnSlashedTokens / FeeRefund / AddAmountToStake (Delegate with subtractAccount=false paired with the dispute module's transfer to the bonded pool; suspected defect: coins always go to the bonded pool even when the validator is not bonded), WithdrawTip: not under contract",
 			"the pool >= ledger invariant itself is the staking module's and is not modelled",
+		},
+	})
+	reg(&PropDef{
+		ID:    "C16",
+		Title: "Validator-set checkpoints form a chain an EVM light client can always follow",
+		Funcs: fcNP("x/bridge/keeper.Keeper.CompareAndSetBridgeValidators", "x/bridge/keeper.Keeper.SetBridgeValidatorParams", "x/bridge/keeper.Keeper.CalculateValidatorSetCheckpoint",
+			"x/bridge/keeper.Keeper.LastSavedValidatorSetStale", "x/bridge/keeper.Keeper.GetValidatorSetTimestampBefore", "x/bridge/keeper.Keeper.GetCurrentValidatorsEVMCompatible",
+			"x/bridge/keeper.Keeper.GetCurrentValidatorSetEVMCompatible", "x/bridge/keeper.Keeper.SetBridgeValsetSignature", "x/bridge/keeper.Keeper.PowerDiff"),
+		Assumptions: []string{
+			"trusted frames: EncodeAndHashValidatorSet (ABI packing and hashing, C15) and the staking keeper's GetAllValidators (assumed contract: reads only); codec MustMarshal is a pure read",
+			"block time is at least two weeks after 1970 and the checkpoint index stays below 2^64-1; stored validator sets have non-nil members",
+			"the byte-wise comparison of the saved and the current set (cdc.MustMarshal) is not modelled: the update rule is stated through the results of LastSavedValidatorSetStale and PowerDiff on the paths that call them",
+		},
+		NotDecided: []string{
+			"ordering of the set (descending power, then address): the sort's less closure dereferences members of an arbitrary permutation, which the sort specification cannot yet show non-nil; membership 'exactly the validators with a registered EVM address and non-zero power' is only proved as 'every member has non-zero power' (GetAllValidators and GetConsensusPower are unconstrained)",
+			"total power below 2^63 at the call of SetBridgeValidatorParams (needed for threshold = total*2/3 without wrap-around) is a precondition that CompareAndSetBridgeValidators cannot establish from the unconstrained staking results",
+			"strictly increasing checkpoint timestamps (needs block-time monotonicity and at most one checkpoint per block) and the contract's acceptance rule (EVM side)",
+		},
+	})
+	reg(&PropDef{
+		ID:    "C15",
+		Title: "Bridge byte encodings agree with what the EVM contracts compute and verify",
+		Funcs: fcNP("x/bridge/keeper.Keeper.SetBridgeValidatorParams", "x/bridge/keeper.Keeper.CalculateValidatorSetCheckpoint"),
+		Assumptions: []string{
+			"total validator power below 2^63 (the threshold is computed as total*2/3 in uint64)",
+		},
+		NotDecided: []string{
+			"every byte encoding (validator-set hash, domain-separated checkpoint, attestation digest, deposit/withdrawal query ids, withdrawal report value) against the Solidity contracts: go-ethereum's abi.Arguments.Pack and the hand-rolled dynamic-array encoding work on byte strings and reflection, which this verifier does not model; only the power threshold (two thirds of total power) and the mutual consistency of the values stored with a checkpoint (hash, threshold, timestamp, index) are decided",
+			"the signature digest convention (sha-256 of the digest, recoverable secp256k1)",
+		},
+	})
+	reg(&PropDef{
+		ID:    "C17",
+		Title: "Vote-extension data reaches state only as signed; proposals stay coherent",
+		Funcs: fcNP("app.ProposalHandler.ProcessProposalHandler", "app.ProposalHandler.PreBlocker", "app.ProposalHandler.CheckInitialSignaturesFromLastCommit",
+			"app.ProposalHandler.CheckValsetSignaturesFromLastCommit", "app.ProposalHandler.CheckOracleAttestationsFromLastCommit", "app.ProposalHandler.SetEVMAddresses",
+			"x/bridge/keeper.Keeper.SetBridgeValsetSignature", "x/bridge/keeper.Keeper.SetOracleAttestation", "x/bridge/keeper.Keeper.SetEVMAddressByOperator", "x/bridge/keeper.Keeper.GetEVMAddressByOperator"),
+		Assumptions: []string{
+			"json.Unmarshal is deterministic: the lengths of the lists it decodes are functions of the input bytes (jsonlen); nothing else about decoded content is modelled. reflect.DeepEqual on two slices implies equal lengths (and equal integer/string elements)",
+			"PreBlocker is entered only for blocks whose proposal ProcessProposal accepted (its precondition is ProcessProposal's postcondition on the same req.Txs[0]); stored validator sets have non-nil members",
+			"trusted: EVMAddressFromSignatures (secp256k1 recovery), the staking keeper's GetValidatorByConsAddr (reads), baseapp.ValidateVoteExtensions (havocked result)",
+		},
+		NotDecided: []string{
+			"that an honest proposer's proposal is always accepted, and that any single-element mutation of the injected data is rejected (element-wise equality through JSON round trips, nil versus empty lists) -- only the length alignment of the lists and 'every list was compared' are decided",
+			"that a validator's EVM address is registered once and from its own signatures: signature recovery is not modelled; only 'at most one registration per commit vote' and 'the setter writes exactly the given operator' are decided",
+			"ctx.ConsensusParams().Abci is dereferenced without a nil check in ProcessProposal and PreBlocker, and ProcessProposal indexes req.Txs[0] without a length check (a panic there is recovered by baseapp and rejects the proposal): these panic obligations are not claimed",
+			"extend_vote.go (construction and size checks of vote extensions) is not under contract",
 		},
 	})
 }
